@@ -128,7 +128,14 @@ func (dp *DPoVP) MineBlock(txProcessTimeout int64) (*types.Block, error) {
 	}
 
 	txs := dp.txPool.GetTxs(header.Time, params.MaxTxsForMiner)
-	block, invalidTxs, err := dp.assembler.MineBlock(header, txs, txProcessTimeout)
+	// pack only what verifyTxs accepts at this block time: GetTxs drops expired txs, but not the ones which expire too far ahead yet
+	packable := make(types.Transactions, 0, len(txs))
+	for _, tx := range txs {
+		if tx.VerifyTxBody(dp.processor.ChainID, uint64(header.Time), true) == nil {
+			packable = append(packable, tx)
+		}
+	}
+	block, invalidTxs, err := dp.assembler.MineBlock(header, packable, txProcessTimeout)
 	if err != nil {
 		if err == deputynode.ErrNoStableTerm {
 			// fetch last snapshot block's confirm
